@@ -7,6 +7,22 @@ CORE_TB = [
 ]
 
 PROPS = {
+    "C10": {
+        "level": "proof",
+        "rule": "SPLIT ops through Configuration::split: exhaustively all strings up to length 5 (quick; 7 in thorough over 4 letters) over "
+                "an alphabet mixing 1-, 2-, 3- and 4-byte characters {a, space, é, ▁, 😀} x 6 behaviours x 4 character, 8 string (incl. "
+                "empty and overlapping) and 5 regex patterns (incl. empty-match-capable and look-ahead); randomly: longer texts, the regexes "
+                "used by the converters, chains of up to 3 splits, Unicode-script splitting over scalar classes. Judged by the recursive "
+                "range specifications plus order, tiling and character alignment. Non-trivial: the text is non-empty.",
+        "trusted_base": CORE_TB + ["modelled, not verified: memchr/memmem (leftmost non-overlapping search, modelled and tied by correspondence), "
+                                   "fancy-regex find_iter and unicode-script lookup (oracle tables recorded through verif-hooks; every recorded "
+                                   "regex result is re-checked against the MatchesSane assumption by the Ordered/aligned verdict)"],
+        "assumptions": ["MatchesSane: regex matches are ordered, non-overlapping, in bounds (hypothesis of split_ordered/chain_refines)"],
+        "explanation": "Lean theorems for every match list and text length: each behaviour equals its gaps/matches description, Isolate/Merge/"
+                       "MergeLeft/MergeRight tile the text, Remove/Match are ordered, every output boundary is a match boundary or an end of "
+                       "the text, literal matches form a chain and are character-aligned in valid UTF-8, character = string pattern, a chain "
+                       "of splits refines the previous stage. Tied to src/config/split.rs and Configuration::split by differential runs.",
+    },
     "C13": {
         "level": "proof",
         "rule": "exhaustive token sequences up to length 5 (quick) / 7 (thorough) over 3 ids x all Strip/Pad/Truncate "
@@ -95,6 +111,8 @@ def nontrivial(prop, request, impl):
         return impl != "OK " + parts[2]
     if op in ("WP", "BPE", "UNI", "ENC"):
         return impl not in ("OK -",)
+    if op == "SPLIT":
+        return parts[2] != "-"
     if op == "DEC":
         return parts[3] != "-"
     if op == "DECSTEP":
